@@ -1,7 +1,7 @@
 from registry_common import COMMON_ASSUME
 
 ENTRY = dict(
-        prop_modules=["C19", "TieTypes"],
+        prop_modules=["C19", "TieTypes", "TieTypesB"],
         title="Primitive wire types pack, unpack and size consistently for every value",
         design_ref="DESIGN.md section 6 / C19",
         technique="Lean 4 theorems over all values / all trailing bytes (codec model of data_types.py) + translator table of the struct formats + correspondence with to_bytes/from_bytes/value/size and with the regulator-data consumer on a real EcoMAX device",
@@ -21,7 +21,7 @@ ENTRY = dict(
         level_note="Trusted: Lean kernel; struct float<->bits conversion, UTF-8 encode/decode and inet_* text forms are CPython's (round-tripped in the harness, not modelled). "
                    "CODE TIE (round 8): tools/py2lean_types.py translates the source text of every class of data_types.py (per concrete class: __init__, construction, from_bytes, "
                    "to_bytes, pack, unpack, value, size, __eq__, BitArray.next; DATA_TYPES) to Generated/PyCodeTypes.lean on every run; Props/TieTypes.lean proves for the eight integer "
-                   "classes `translated method = intCodec / Inst.step (intInst t)` for ALL values, buffers, offsets and slot states (`*_code_lawful`, `IntClass.sim`, `sim_run`, `data_types_tbl`); "
+                   "classes `translated method = intCodec / Inst.step (intInst t)` for ALL values, buffers, offsets and slot states (`*_code_lawful`, `IntClass.sim`, `sim_run`, `data_types_tbl`), Props/TieTypesB.lean `translated BitArray method = bitUnpack / bitValue / bitSize / bitNext / bitPack` (all buffers, raw bytes, indexes); "
                    "translator + PyPreludeTypes are validated against CPython by harness/pycode_types.py (result and instance slots afterwards). The remaining classes are translated and validated, "
                    "their model tie is differential.",
         clauses={
